@@ -260,3 +260,22 @@ CLOSING = Harness(
     stubs=STUBS_COMMON,
 )
 HARNESSES.append(CLOSING)
+
+
+# ------------------------------------------------------------------------------ G-race (scenario shared with C04)
+from . import c04 as _c04  # noqa: E402
+
+RACE = Harness(
+    prop="C18",
+    name="G-race",
+    fn=guard(lambda a, tier: _c04._race(a, tier, None, "C18")),
+    params=_c04.race_params,
+    cube=_c04.RACE.cube,
+    title="lookups of one (multi-type) async factory racing from several tasks: ONE generation event",
+    bound_text=_c04.RACE.bound_text,
+    oracle="exactly one ResourceEvent(is_factory=False) with the factory's types and name is dispatched on the context for the generation, under every "
+    "explored interleaving - also when the first attempt raised or its requester was cancelled (the failed attempt announces nothing)",
+    outside=_c04.RACE.outside,
+    stubs=STUBS_COMMON,
+)
+HARNESSES.append(RACE)
